@@ -142,7 +142,7 @@ static void run_C11(const Args &a, long cs) {
 	// Lawson-Hanson takes its tolerance from the caller: a caller states it relative to the size of the data (1e-10 of the largest |b_i|); an absolute 1e-10 on data
 	// scaled by 1e6 lies below the rounding noise eps*|A||x| of the gradient the solver tests, where no active-set method can terminate reliably
 	double bscale = 0; for (int i = 0; i < n; i++) bscale = std::max(bscale, std::fabs(p.b[i])); if (!(bscale > 0)) bscale = 1;
-	double kkt3 = (double)n * DBL_EPSILON * 1e5, lhtol = 1e-10 * bscale;
+	double kkt3 = (double)n * DBL_EPSILON * 1e5 * bscale, lhtol = 1e-10 * bscale; // (nnls_normal_block3 states its tolerance relative to max|b| as well)
 	S solvers[] = {{"nnls_normal_block3", 0, 0.0, kkt3}, {"nnls_normal_block", 1, 1e-6, 1e-6}, {"nnls_normal_block_updown", 2, 1e-6, 1e-6}, {"nnls_lawson_hanson(normaleq)", 3, 0.0, lhtol}, {"nnls_lawson_hanson(ls)", 4, 0.0, lhtol}};
 	for (auto &sv : solvers) {
 		if (sv.id == 4 && (p.m == 0 || p.kind.find("banded") != std::string::npos || !small)) continue; // LS form only where A = B'B (+eps I folded into extra rows)
